@@ -596,7 +596,7 @@ func TestC10(t *testing.T) {
 				Kind string `json:"kind"`
 			}
 			_ = json.Unmarshal(raw, &probe)
-			if probe.Kind == "hist" {
+			if probe.Kind == "hist" || probe.Kind == "params" {
 				continue
 			}
 			var in Input
